@@ -40,6 +40,8 @@ func rulesC13(c *Ctx) {
 	ruleC13CheckerImmutable(c)
 	ruleC13EmptyString(c)
 	ruleC13OverrideLayers(c)
+	rulePatchScope(c, "C13.PATCHSCOPE")
+	ruleNilEntryMarked(c, "C13.NILENTRY")
 }
 
 // ruleC13OverrideLayers: field overrides are layered (child store first, parent store on top) and resolve
